@@ -118,12 +118,68 @@ def classify_exception(e):
             'tb': traceback.format_exc()[-1500:]}
 
 
-def build_inputs(env, native=True):
+def _permuted(ds, seed):
+    """rows and columns of a spec dataset permuted deterministically by seed (None = as given)."""
+    if seed is None:
+        return ds
+    import random
+    r = random.Random(seed)
+    comps, rows = list(ds['comps']), list(ds['rows'])
+    r.shuffle(comps)
+    r.shuffle(rows)
+    return {'comps': comps, 'rows': rows}
+
+
+def _csv_text(ds):
+    import csv
+    import io
+    out = io.StringIO()
+
+    class _Q(str):
+        pass
+    w = csv.writer(out, lineterminator='\n', quoting=csv.QUOTE_NONNUMERIC)
+    cols = [c['n'] for c in ds['comps']]
+    out.write(','.join('"' + c.replace('"', '""') + '"' for c in cols) + '\n')
+    for r in ds['rows']:
+        row = []
+        for c in ds['comps']:
+            v = values.dec(r[c['n']])
+            if v is None:
+                row.append(None)
+            elif isinstance(v, bool):
+                row.append('true' if v else 'false')
+            elif isinstance(v, float):
+                row.append(repr(v))
+            else:
+                row.append(str(v))
+        # nulls are empty unquoted fields, every non-null value is quoted (so "" denotes the empty string)
+        out.write(','.join('' if x is None else '"' + x.replace('"', '""') + '"' for x in row) + '\n')
+    return out.getvalue()
+
+
+def build_inputs(env, native=True, form='df', perm=None, tmpdir=None):
+    """spec environment -> (data_structures, datapoints, scalar_values).
+    form: 'df' (pandas, native or string dtypes), 'csv', 'parquet'; perm: seed permuting rows and columns."""
     datasets, scalars, dps, svals = [], [], {}, {}
+    k = 0
     for n, x in env.items():
         if 'comps' in x:
             datasets.append(values.structure_json(n, x['comps']))
-            dps[n] = values.dataframe(x, native=native)
+            k += 1
+            y = _permuted(x, None if perm is None else perm * 31 + k)
+            if form == 'df':
+                dps[n] = values.dataframe(y, native=native)
+            elif form == 'csv':
+                path = os.path.join(tmpdir, n + '.csv')
+                with open(path, 'w', encoding='utf-8', newline='') as f:
+                    f.write(_csv_text(y))
+                dps[n] = path
+            elif form == 'parquet':
+                path = os.path.join(tmpdir, n + '.parquet')
+                values.dataframe(y, native=True).to_parquet(path, index=False)
+                dps[n] = path
+            else:
+                raise ValueError(form)
         else:
             scalars.append({'name': n, 'type': x['t']})
             svals[n] = values.dec(x['v'])
@@ -141,7 +197,11 @@ def run_unit(u):
         text = u.get('script') or ('R := %s;' % render.expr(u['term']))
     except Exception as e:  # renderer failure = machinery
         return {'machinery': 'render: %r' % e}
-    ds, dps, svals = build_inputs(u['env'], native=u.get('native', True))
+    tmpd = None
+    if u.get('form', 'df') != 'df':
+        import tempfile
+        tmpd = tempfile.mkdtemp(prefix='in-', dir=engine.sub_dir('tmp'))
+    ds, dps, svals = build_inputs(u['env'], native=u.get('native', True), form=u.get('form', 'df'), perm=u.get('perm'), tmpdir=tmpd)
     kw = dict(u.get('kw', {}))
     envbak = {}
     for k, v in u.get('osenv', {}).items():
@@ -160,6 +220,9 @@ def run_unit(u):
                 os.environ.pop(k, None)
             else:
                 os.environ[k] = v
+        if tmpd:
+            import shutil
+            shutil.rmtree(tmpd, ignore_errors=True)
     obs['text'] = text
     return obs
 
@@ -194,7 +257,11 @@ def run_pack(units):
         texts.append('R := %s;' % render.expr(u['term']))
         lines.append('u%d_R := %s;' % (i, tx))
     u0 = units[0]
-    ds, dps, svals = build_inputs(env, native=u0.get('native', True))
+    tmpd = None
+    if u0.get('form', 'df') != 'df':
+        import tempfile
+        tmpd = tempfile.mkdtemp(prefix='in-', dir=engine.sub_dir('tmp'))
+    ds, dps, svals = build_inputs(env, native=u0.get('native', True), form=u0.get('form', 'df'), perm=u0.get('perm'), tmpdir=tmpd)
     envbak = {}
     for k, v in u0.get('osenv', {}).items():
         envbak[k] = os.environ.get(k)
@@ -217,6 +284,9 @@ def run_pack(units):
                 os.environ.pop(k, None)
             else:
                 os.environ[k] = v
+        if tmpd:
+            import shutil
+            shutil.rmtree(tmpd, ignore_errors=True)
     h = len(units) // 2
     return run_pack(units[:h]) + run_pack(units[h:])
 
@@ -232,7 +302,7 @@ def execute(units, procs=None, pack=20):
         if u.get('script') or u.get('nopack'):
             key = ('solo', i)
         else:
-            key = json.dumps([u.get('kw', {}), u.get('osenv', {}), u.get('native', True)], sort_keys=True)
+            key = json.dumps([u.get('kw', {}), u.get('osenv', {}), u.get('native', True), u.get('form', 'df'), u.get('perm')], sort_keys=True)
         groups.setdefault(key, []).append(i)
     packs = []
     for key, idxs in groups.items():
